@@ -57,6 +57,7 @@ def oracle_c03(case, impl_lines, model_lines):
     exec_hist = {}                                 # query -> [(revision, from-scratch value then)]
     evicted_at = {}                                # query -> revisions at which it was seen without a value
     dur_at_rev = {}                                # revision -> {query: memo durability at the end of that revision}
+    dur_hist = {}                                  # query -> [(revision, memo durability)] after every step
     for i, s in enumerate(st):
         w_at_rev.setdefault(s["cur"], s["W"])     # first snapshot seen in that revision
         for e in s["ev"]:
@@ -71,6 +72,7 @@ def oracle_c03(case, impl_lines, model_lines):
                 if mm["hv"] == "0":
                     evicted_at.setdefault(k, set()).add(st[i - 1]["cur"])
                 dur_at_rev.setdefault(st[i - 1]["cur"], {})[k] = mm["dur"]
+                dur_hist.setdefault(k, []).append((st[i - 1]["cur"], mm["dur"]))
         if s["R"] is not None and s["R"].startswith("panic"):
             continue                                 # C03 quantifies over histories without panics
         for e in s["ev"]:
@@ -108,6 +110,14 @@ def oracle_c03(case, impl_lines, model_lines):
                     d_then = dur_at_rev.get(r, {}).get(d)
                     if md and ((pmd and md["dur"] < pmd["dur"]) or (d_then is not None and md["dur"] < d_then)):
                         why = "callee less durable"
+                        break
+                    # "became less durable" at ANY time since the validation (a durability drop blocks
+                    # backdating, so the callee's changed_at moved although its value is equal; the
+                    # durability may have risen again since)
+                    dh = [x for x in dur_hist.get(d, []) if x[0] >= r]
+                    if any(dh[j][1] < dh[j - 1][1] for j in range(1, len(dh))) or \
+                            (d_then is not None and any(x[1] < d_then for x in dh)):
+                        why = "callee became less durable at some point since the validation"
                         break
                     if (pmd and pmd["hv"] == "0") or any(rv >= r for rv in evicted_at.get(d, ())):
                         evicted_callee = True
